@@ -3,7 +3,7 @@ import json
 import subprocess
 import sys
 
-from . import adjacency, search, scc, serde, container, paired
+from . import adjacency, search, scc, serde, container, paired, cursor
 
 REGISTRY = {}
 REGISTRY.update(adjacency.CHECKS)
@@ -12,6 +12,7 @@ REGISTRY.update(scc.CHECKS)
 REGISTRY.update(serde.CHECKS)
 REGISTRY.update(container.CHECKS)
 REGISTRY.update(paired.CHECKS)
+REGISTRY.update(cursor.CHECKS)
 
 
 def replay(pid, path):
